@@ -208,6 +208,8 @@ def norm_case(case):
         c['ext'] = case.get('ext', '.lua')
         if case.get('bare'):
             c['bare'] = True
+        if case.get('cwd'):
+            c['cwd'] = case['cwd']
     else:
         c['nested'] = bool(case.get('nested', False))
         if case.get('form', 'paren') != 'paren':
@@ -337,6 +339,13 @@ def _run_include(lay, case, S):
         # the cart named the way a user in its directory would: a bare relative file name
         os.chdir(os.path.dirname(cart))
         name = os.path.basename(cart)
+    elif case.get('cwd') == 'parent':
+        # the process works one / two directories above the cart (relative resp. absolute cart name): where the
+        # process happens to stand gives no permission to read there
+        os.chdir(os.path.dirname(os.path.dirname(cart)))
+        name = os.path.relpath(cart)
+    elif case.get('cwd') == 'top':
+        os.chdir(lay.tmp)
     try:
         with FsGuard() as guard:
             try:
@@ -351,6 +360,8 @@ def _run_include(lay, case, S):
     labels += ['mode_include', 'setting_' + case['setting'], 'ext_' + case['ext']]
     if case.get('bare'):
         labels.append('bare_relative_cart_name')
+    if case.get('cwd'):
+        labels.append('cwd_above_cart')
     if outside:
         labels.append('target_outside')
     return labels
@@ -559,6 +570,12 @@ def include_cases(lay, maxseg):
         if setting == 'own':
             for S in enum_strings(2, SIB[setting]):
                 yield {'mode': 'include', 'setting': setting, 'S': S, 'ext': '.lua', 'bare': True}
+        for cwd in ('parent', 'top'):
+            for S in enum_strings(2, SIB[setting]):
+                yield {'mode': 'include', 'setting': setting, 'S': S, 'ext': '.lua', 'cwd': cwd}
+            for S in explicit_strings(lay, [base, lay.p(INC_ROOT[setting])], EXTS):
+                if S.startswith('..') and S.count('/') <= 3:
+                    yield {'mode': 'include', 'setting': setting, 'S': S, 'ext': '.lua', 'cwd': cwd}
         for S in special_strings(lay, [base, lay.p(INC_ROOT[setting])]):
             for ext in EXTS[:2] if S.count('\\') < 2 else EXTS[:1]:
                 yield {'mode': 'include', 'setting': setting, 'S': S, 'ext': ext}
@@ -666,7 +683,7 @@ def replay(case):
 def vacuity(total, tier):
     msgs = []
     need = ['dotdot', 'absolute', 'sibling', 'tilde', 'backslash', 'env_var', 'dotted_path', 'case_variant_sibling', 'inside_ok', 'rejected', 'nested', 'mode_include', 'mode_require',
-            'bare_relative_cart_name', 'require_string_call_form',
+            'bare_relative_cart_name', 'cwd_above_cart', 'require_string_call_form',
             'target_outside', 'failed_other']
     need += ['setting_' + s for s in INC_SETTINGS + REQ_ORDER]
     need += ['inside_ok:' + s for s in INC_SETTINGS + REQ_ORDER]
